@@ -1,9 +1,12 @@
 #!/bin/sh
-# usage: replay_build.sh <repo dir> <scratch dir> [--release]  -> builds yq-replay against that repo
-set -e
-REPO="$1"; OUT="$2"; shift 2
-mkdir -p "$OUT/src"
-sed "s#@REPO@#$REPO#" /verif/replay/Cargo.toml.in > "$OUT/Cargo.toml"
-cp /verif/replay/src/*.rs "$OUT/src/"
-cd "$OUT"
-CARGO_NET_OFFLINE=true cargo build --offline "$@" 2>&1 | tail -3
+# usage: replay_build.sh <repo dir> [--release]  -> builds yq-replay against a copy of that repo (+ replay/inject probes) and
+# prints the path of the executable
+REPO="$1"; shift
+PROFILE=dev; [ "$1" = "--release" ] && PROFILE=release
+cd "$(dirname "$0")" && python3 -c "
+import sys
+sys.path.insert(0, '.')
+from yqv import replay
+b = replay.build('$REPO', '$PROFILE')
+print(b[0] if b else 'BUILD FAILED')
+"
